@@ -1,11 +1,11 @@
 //! W(s, T_k): typed term space, generated type-directed; builders into real nodes with every
 //! node's arrow pinned; placement wrappers; execution on the real Bit Machine.
 
-use crate::reference::eval::{Failure, Term, Tm};
+use crate::reference::eval::{Failure, TOut, Term, Tm, TraceEv};
 use crate::reference::merkle::Merkle;
 use crate::reference::tyval::*;
 use crate::space::dag::{hidden_cmr, word_of, CNode, Fam};
-use simplicity::bit_machine::ExecutionError;
+use simplicity::bit_machine::{ExecTracker, ExecutionError, FrameIter, NodeOutput};
 use simplicity::jet::CoreEnv;
 use simplicity::node::{CoreConstructible, DisconnectConstructible, RedeemNode, WitnessConstructible};
 use simplicity::types::{self, Final, Type};
@@ -438,4 +438,66 @@ pub fn run_on_machine(prog: &RedeemNode, input: &Rc<RV>, src: &Rc<RT>, tgt: &Arc
         Err(e) => return Err(format!("unexpected execution error: {e}")),
     };
     Ok(Obs { result, output_problem, hw: (cells, frames), allowance, limit_refused: false })
+}
+
+
+/// Records what the Bit Machine shows to an `ExecTracker`: the node kind, the value its read frame holds at the
+/// cursor (decoded by the reference decoder against the node's source type) and, for terminal nodes, the value
+/// its write frame holds (against the target type).
+pub struct Recorder {
+    pub evs: Vec<Result<TraceEv, String>>,
+}
+
+fn frame_value(it: &FrameIter, ty: &Final) -> Result<Rc<RV>, String> {
+    let rt = RT::from_final(ty);
+    let w = rt.width() as usize;
+    let bits: Vec<bool> = it.clone().take(w).collect();
+    if bits.len() < w {
+        return Err(format!("frame holds {} bits from its cursor, the type {} needs {}", bits.len(), rt, w));
+    }
+    let mut pos = 0;
+    RV::from_padded(&rt, &bits, &mut pos).ok_or_else(|| format!("frame bits are not a value of {rt}"))
+}
+
+impl ExecTracker for Recorder {
+    fn visit_node(&mut self, node: &RedeemNode, input: FrameIter, output: NodeOutput) {
+        use simplicity::node::Inner;
+        let kind = match node.inner() {
+            Inner::Iden => "iden",
+            Inner::Unit => "unit",
+            Inner::InjL(_) => "injl",
+            Inner::InjR(_) => "injr",
+            Inner::Take(_) => "take",
+            Inner::Drop(_) => "drop",
+            Inner::Comp(..) => "comp",
+            Inner::Case(..) => "case",
+            Inner::AssertL(..) => "assertl",
+            Inner::AssertR(..) => "assertr",
+            Inner::Pair(..) => "pair",
+            Inner::Disconnect(..) => "disconnect",
+            Inner::Witness(_) => "witness",
+            Inner::Fail(_) => "fail",
+            Inner::Jet(_) => "jet",
+            Inner::Word(_) => "word",
+        };
+        let ev = (|| {
+            let input = frame_value(&input, &node.arrow().source).map_err(|e| format!("{kind}: input: {e}"))?;
+            let out = match output {
+                NodeOutput::NonTerminal => TOut::NonTerminal,
+                NodeOutput::JetFailed => TOut::JetFailed,
+                NodeOutput::Success(o) => TOut::Success(frame_value(&o, &node.arrow().target).map_err(|e| format!("{kind}: output: {e}"))?),
+            };
+            Ok(TraceEv { kind, input, out })
+        })();
+        self.evs.push(ev);
+    }
+}
+
+/// one more execution of the program on `input`, under the recording tracker
+pub fn trace_on_machine(prog: &RedeemNode, input: &Rc<RV>, src: &Rc<RT>) -> Result<Vec<Result<TraceEv, String>>, String> {
+    let mut mac = BitMachine::for_program(prog).map_err(|e| format!("for_program refused: {e}"))?;
+    mac.input(&input.to_value(src)).map_err(|e| format!("input refused: {e}"))?;
+    let mut rec = Recorder { evs: vec![] };
+    let _ = mac.exec_with_tracker(prog, &CoreEnv::new(), &mut rec);
+    Ok(rec.evs)
 }
